@@ -146,15 +146,16 @@ Definition ucheck (k : ucase) : bool :=
 (* ---- functionals: value, gradient element, derivative(x)(d), class of derivative(x) ---- *)
 From Verif Require Import C06.FModel.
 Record fcase := {
-  f_e : fexpr (T:=Q); f_x : list Q; f_d : list Q;
+  f_e : fexpr (T:=Q); f_w : list Q;   (* weights of the functional's domain *)
+  f_x : list Q; f_d : list Q;
   f_val : Q;                 (* f(x) *)
   f_grad : list Q;           (* f.gradient(x) *)
   f_dd : Q;                  (* f.derivative(x)(d) *)
   f_inner : bool }.          (* f.derivative(x) is an InnerProductOperator with vector gradient(x) *)
 Definition fcheck (k : fcase) : bool :=
-  let e := f_e k in let x := f_x k in
-  fwt e && Nat.eqb (length x) (fdim e) && Nat.eqb (length (f_d k)) (fdim e)
-  && qc (f_val k) (feval Qsqrt e x)
-  && qsc (f_grad k) (fgrad Qsqrt e x)
-  && qc (f_dd k) (dot (f_d k) (fgrad Qsqrt e x))
+  let e := f_e k in let x := f_x k in let w := f_w k in
+  fwt e && Nat.eqb (length x) (fdim e) && Nat.eqb (length (f_d k)) (fdim e) && Nat.eqb (length w) (fdim e)
+  && qc (f_val k) (feval Qsqrt w e x)
+  && qsc (f_grad k) (fgrad Qsqrt w e x)
+  && qc (f_dd k) (wdot w (f_d k) (fgrad Qsqrt w e x))
   && f_inner k.
